@@ -25,7 +25,7 @@ ASSUMPTIONS = [
 ]
 BOUNDS = {"quick": dict(history_length=2, classes=5, D=[2]), "thorough": dict(history_length=3, classes=6, D=[2, 3])}
 
-OPS = ("set_data", "inplace", "reset", "update", "call", "disp", "clear_buffers", "inverse", "condition", "grid", "set_same")
+OPS = ("set_data", "inplace", "reset", "update", "call", "disp", "clear_buffers", "inverse", "condition", "grid", "set_same", "grid_flip")
 
 
 class Model:
@@ -42,6 +42,13 @@ class Model:
         self.kw = dict(stride=2) if "FreeForm" in cls_name else {}
         if "Velocity" in cls_name:
             self.kw.update(steps=1)
+        if "+stride2" in held:  # dense field stored on a coarser grid than the transform's own (u is an interpolated copy)
+            held = held.split("+")[0]
+            self.held = held
+            self.kw.update(stride=2)
+            if D == 2:
+                self.sizes = (6, 4)
+                self.grid = geom.concrete_grid(D, ctx.seed, 0, align_corners=True, sizes=self.sizes)
         self.cls = getattr(S, cls_name)
         self.cond = None
         self.counter = 0
@@ -141,9 +148,12 @@ class Model:
             replacing = True
         elif op == "grid":
             return self.change_grid()
+        elif op == "grid_flip":
+            return self.change_grid(flip=True)
         return replacing
 
-    def change_grid(self):
+    def change_grid(self, flip=False):
+        """grid_ to a finer grid of the same domain; flip: the new grid uses the other align_corners convention."""
         from deepali.data.flow import FlowFields
 
         t, ctx = self.t, self.ctx
@@ -153,9 +163,13 @@ class Model:
         buf = "v" if "Velocity" in self.cls_name else "u"  # the field the spline represents
         u_old = getattr(t.update(), buf).clone() if "FreeForm" in self.cls_name else None
         if "FreeForm" in self.cls_name:
+            if flip:
+                return False
             new_grid = old_grid.resize([2 * m - 1 for m in self.sizes])
         else:
             new_grid = old_grid.resize([m + 1 for m in self.sizes])
+            if flip:
+                new_grid = new_grid.align_corners(not old_grid.align_corners())
         if "FreeForm" not in self.cls_name:
             flow = FlowFields(self.P.clone(), grid=old_grid.reshape(self.P.shape[2:]), axes=t.axes())
             data_grid = t.data_grid(new_grid)
@@ -184,7 +198,7 @@ def ob_history(ctx, cls_name, D, held, history):
         applicable = m.step(op)
         label.append(op)
         what = f"{cls_name}[{held}] after " + ",".join(label)
-        if applicable is False and op in ("set_data", "set_same", "reset", "condition", "grid"):
+        if applicable is False and op in ("set_data", "set_same", "reset", "condition", "grid", "grid_flip"):
             continue
         f = m.fresh()
         if applicable:
@@ -258,6 +272,55 @@ def ob_sequential(ctx, D, history):
         ctx.eq(seq(x), ref, f"Sequential after {op}: uses the members' current state")
 
 
+def ob_sequential_predicted(ctx, D, kind, history):
+    """Composite whose LINEAR member takes its parameters from a callable (re-conditioned through the composite) or from a
+    linked original: calling the composite as a whole must use the member's current parameters."""
+    import deepali.spatial as S
+    from checks.c06 import _nonrigid
+
+    g = geom.concrete_grid(D, ctx.seed, 0, align_corners=True, sizes=(4, 3) if D == 2 else (3, 3, 2))
+    ctx.witness_cells()
+    base = ctx.reals("t", [[0.0625, -0.03125, 0.015625][:D]], nice=(-0.25, 0.25))
+    b = _nonrigid(ctx, "DisplacementFieldTransform", g, D)
+    x = g.coords(align_corners=True).reshape(1, -1, D) * 0.5
+    if kind == "callable":
+        a = S.Translation(g, params=lambda c: base + c)
+        seq = S.SequentialTransform(a, b)
+        c = ctx.reals("c0_", 0.03125, nice=(-0.1, 0.1))
+        seq.condition_(c)
+        cur = base + c
+    else:
+        orig = S.Translation(g, params=base.clone())
+        a = orig.inverse(link=True)
+        seq = S.SequentialTransform(a, b)
+        cur = -base
+    seq.update()
+    k = 0
+    for op in history:
+        k += 1
+        if op == "recondition" and kind == "callable":
+            c = ctx.reals(f"c{k}_", 0.015625 * (k + 1), nice=(-0.1, 0.1))
+            seq.condition_(c)
+            cur = base + c
+        elif op == "set_original" and kind == "linked":
+            q = ctx.reals(f"q{k}_", [[0.03125, 0.0625, -0.03125][:D]], nice=(-0.25, 0.25))
+            orig.data_(q.clone())
+            cur = -q
+        elif op == "inplace":
+            d = ctx.reals(f"d{k}_", 0.015625, nice=(-0.1, 0.1))
+            with torch.no_grad():
+                (base if kind == "callable" else orig.data()).add_(d)
+            cur = cur + d if kind == "callable" else cur - d
+        elif op == "call":
+            seq(x)
+        elif op == "disp":
+            seq.disp()
+        y = seq(x)  # the composite is called as a whole, before any member is called on its own
+        fresh = S.DisplacementFieldTransform(g, params=False)
+        fresh.data_(b.data().clone())
+        ctx.eq(y, fresh(x + cur.reshape(1, 1, D)), f"Sequential[{kind} linear member] after {op}: uses the member's current parameters")
+
+
 def ob_generic(ctx, D, model, history):
     """GenericSpatialTransform with parameters predicted by a callable from the conditioning input."""
     import deepali.spatial as S
@@ -319,24 +382,28 @@ def ob_generic(ctx, D, model, history):
 def obligations(tier: str, seed: int):
     obs = []
     classes = [("DisplacementFieldTransform", "tensor"), ("DisplacementFieldTransform", "param"), ("StationaryVelocityFieldTransform", "tensor"), ("FreeFormDeformation", "tensor"),
-               ("StationaryVelocityFreeFormDeformation", "param"), ("DisplacementFieldTransform", "callable")]
+               ("StationaryVelocityFreeFormDeformation", "param"), ("DisplacementFieldTransform", "callable"),
+               ("DisplacementFieldTransform", "param+stride2"), ("StationaryVelocityFieldTransform", "tensor+stride2")]
     L = 2 if tier == "quick" else 3
     for D in ((2,) if tier == "quick" else (2, 3)):
         for cls_name, held in classes:
-            ops = [o for o in OPS if not (held == "callable" and o in ("set_data", "set_same", "reset", "grid")) and not (held != "callable" and o == "condition")]
+            ops = [o for o in OPS if not ((held == "callable" or "stride2" in held) and o in ("grid", "grid_flip")) and not (held == "callable" and o in ("set_data", "set_same", "reset")) and not (held != "callable" and o == "condition") and not ("FreeForm" in cls_name and o == "grid_flip")]
             if tier == "thorough" and L == 3:
                 ops3 = [o for o in ops if o in ("set_data", "inplace", "call", "disp", "grid", "set_same", "reset", "condition", "inverse")]
                 hs = list(itertools.product(ops3, repeat=3)) if D == 2 else list(itertools.product(ops3[:5], repeat=2))
             else:
                 hs = list(itertools.product(ops, repeat=2))
             for h in hs:
-                if h.count("grid") > 1:
+                if h.count("grid") + h.count("grid_flip") > 1:
                     continue
                 obs.append((f"history-{cls_name}-{held}-D{D}-" + "+".join(h), ob_history, dict(cls_name=cls_name, D=D, held=held, history=list(h))))
         for h in itertools.product(("set_data", "inplace", "call", "unlink_relink", "copy"), repeat=2):
             obs.append((f"linked-D{D}-" + "+".join(h), ob_linked, dict(D=D, history=list(h))))
         for h in itertools.product(("set_data_a", "inplace_b", "reset_b", "call", "disp"), repeat=2):
             obs.append((f"sequential-D{D}-" + "+".join(h), ob_sequential, dict(D=D, history=list(h))))
+        for kind, ops_ in (("callable", ("recondition", "inplace", "call", "disp")), ("linked", ("set_original", "inplace", "call", "disp"))):
+            for h in itertools.product(ops_, repeat=2):
+                obs.append((f"sequential-{kind}-D{D}-" + "+".join(h), ob_sequential_predicted, dict(D=D, kind=kind, history=list(h))))
         for model in ("Affine o DDF", "SVF o Affine"):
             for h in itertools.product(("condition", "inplace", "call", "disp", "update"), repeat=2):
                 obs.append((f"generic-{model.replace(' ', '')}-D{D}-" + "+".join(h), ob_generic, dict(D=D, model=model, history=list(h))))
